@@ -583,8 +583,8 @@ func (r *c16runner) access(e *c16env, a c16access, tt conf.TypesTable) c16result
 	rep.hist("position " + a.kind)
 
 	// ---- what Go itself says along the path ----
-	static := true     // every name on the path is resolved statically on a populated member
-	goOK := true       // Go resolves every name to an accessible (exported) member
+	static := true // every name on the path is resolved statically on a populated member
+	goOK := true   // Go resolves every name to an accessible (exported) member
 	unexported, unexportedTop := false, false
 	memberMulti, memberAmb, funcMap := false, false, false
 	var cur reflect.Type
